@@ -438,3 +438,17 @@ func VerifPoolPut(b []byte) error { return defaultBufferPool.Put(b) }
 func (r *RingBuffer[T]) VerifClone() *RingBuffer[T] {
 	return &RingBuffer[T]{head: r.head, tail: r.tail, elements: append([]T(nil), r.elements...)}
 }
+
+// VerifReadable reports whether a Read would return data without blocking.
+func (s *UDPSession) VerifReadable() bool {
+	s.mu.Lock()
+	defer s.mu.Unlock()
+	return len(s.bufptr) > 0 || s.kcp.PeekSize() > 0
+}
+
+// VerifWritable reports whether a Write would be admitted without blocking.
+func (s *UDPSession) VerifWritable() bool {
+	s.mu.Lock()
+	defer s.mu.Unlock()
+	return s.kcp.WaitSnd() < int(s.kcp.snd_wnd)
+}
